@@ -124,7 +124,10 @@ func (c *fnCtx) function() {
 	}
 	var fieldNames []string
 	fieldTypes := map[string]ast.Expr{}
-	if recvType != "" {
+	if fn.namedRecv {
+		// a method of a named map type: the receiver is the first parameter
+		c.typeParamsAs(c.g.named[recvType].TypeParams, targs, fd)
+	} else if recvType != "" {
 		ts := c.g.structs[recvType]
 		if ts == nil {
 			c.lostAt(fd, "receiver type %s (not a struct of this file)", recvType)
@@ -182,6 +185,9 @@ func (c *fnCtx) function() {
 	var needExtras [][2]string
 	isRecvIdent := func(e ast.Expr) bool {
 		id, ok := e.(*ast.Ident)
+		if fn.namedRecv {
+			return false
+		}
 		if ok && fn.recvObj != nil {
 			return id.Obj == fn.recvObj
 		}
@@ -286,6 +292,9 @@ func (c *fnCtx) function() {
 			}
 			if cal := c.g.calleeOf(fn, v); cal != nil {
 				for _, e := range cal.extras {
+					if strings.HasPrefix(e.key, "eqb:") {
+						continue // passed when the call is translated (the type argument may differ)
+					}
 					needExtras = append(needExtras, [2]string{e.key, e.name})
 				}
 				for _, f := range cal.fields {
@@ -348,6 +357,11 @@ func (c *fnCtx) function() {
 			ft = o.typ
 		} else {
 			ft = c.goType(fieldTypes[f])
+			if _, lit := fieldTypes[f].(*ast.MapType); lit && ft.k == "map" {
+				u := *ft
+				u.nilable = false // a map field of the receiver is taken to be allocated
+				ft = &u
+			}
 		}
 		v := c.newVar(fn.recvVar+"_"+f, ft, "field")
 		c.fields[f] = v
@@ -368,14 +382,46 @@ func (c *fnCtx) function() {
 		logged[l] = true
 	}
 	usage := c.sliceUsage(fd)
-	for _, f := range fd.Type.Params.List {
-		t := c.goType(f.Type)
+	mapMut, anyMapMut := c.mapMutations(c.body)
+	c.noMapMut = !anyMapMut
+	plist := fd.Type.Params.List
+	if fn.namedRecv {
+		plist = append([]*ast.Field{fd.Recv.List[0]}, plist...)
+	}
+	for _, f := range plist {
+		t, isPtr := c.paramTypeOf(f.Type)
 		if len(f.Names) == 0 {
 			c.lostAt(f, "unnamed parameter")
 		}
+		_, isVariadic := f.Type.(*ast.Ellipsis)
 		for _, n := range f.Names {
-			p := &fnParam{goName: n.Name}
+			p := &fnParam{goName: n.Name, variadic: isVariadic}
 			fn.params = append(fn.params, p)
+			if t.k == "map" {
+				if n.Name == "_" || n.Obj == nil {
+					c.lostAt(f, "blank parameter")
+				}
+				v := c.newVar(n.Name, t, "param")
+				v.obj, v.ptr = n.Obj, isPtr
+				c.vars[n.Obj] = v
+				p.v = v
+				p.mutated = mapMut[n.Obj]
+				if !isPtr {
+					// a map parameter assigned as a whole refers to another map from then on:
+					// what happens to that one is not what happens to the argument
+					ast.Inspect(c.body, func(x ast.Node) bool {
+						if as, ok := x.(*ast.AssignStmt); ok {
+							for _, l := range as.Lhs {
+								if id, ok := l.(*ast.Ident); ok && id.Obj == n.Obj && as.Tok != token.DEFINE {
+									c.lostAt(as, "assignment to the map parameter %s", n.Name)
+								}
+							}
+						}
+						return true
+					})
+				}
+				continue
+			}
 			if t.k == "func" && len(t.res) == 0 {
 				continue // called for effect only: its calls are the log
 			}
@@ -444,7 +490,7 @@ func (c *fnCtx) function() {
 			}
 			for i := 0; i < n; i++ {
 				rt := t
-				if t.k == "slice" && t.elem.k != "slice" && usage["#ret"+strconv.Itoa(slot)].view {
+				if u := usage["#ret"+strconv.Itoa(slot)]; t.k == "slice" && t.elem.k != "slice" && u != nil && u.view {
 					rt = tyView
 				}
 				fn.results = append(fn.results, rt)
@@ -473,12 +519,12 @@ func (c *fnCtx) function() {
 		return c.retTerm(nil)
 	}
 	for _, t := range fn.results {
-		if t.k == "map" || t.k == "obj" {
+		if t.k == "obj" {
 			c.lostAt(fd, "result of type %s (aliasing)", t.k)
 		}
 	}
 	for _, p := range fn.params {
-		if p.v != nil && (p.v.typ.k == "map" || p.v.typ.k == "obj") {
+		if p.v != nil && p.v.typ.k == "obj" {
 			c.lostAt(fd, "parameter %s of type %s (aliasing)", p.goName, p.v.typ.k)
 		}
 	}
@@ -497,6 +543,7 @@ func (c *fnCtx) function() {
 			body = tLet{c.retNames[i].name + " : " + varType(c.retNames[i]), c.zeroOf(c.retNames[i].typ, fd), body}
 		}
 	}
+	fn.retFresh = c.computeRetFresh(c.body)
 	c.emit(body)
 }
 
@@ -508,12 +555,14 @@ func (c *fnCtx) zeroOf(t *fnType, at ast.Node) string {
 		return "false"
 	case "string", "slice":
 		return "[]"
-	case "elem":
-		z := c.zeros[t.name]
-		if z == nil {
-			c.lostAt(at, "zero value of %s here", t.name)
+	case "unit":
+		return "tt"
+	case "map":
+		if t.nilable {
+			return "None"
 		}
-		return z.name
+	case "elem":
+		return c.zeroVar(t.name).name
 	case "struct":
 		s := "mk_" + t.name
 		for _, ft := range structFieldTypes(t) {
@@ -574,6 +623,21 @@ func (c *fnCtx) sliceUsage(fd *ast.FuncDecl) map[string]*sliceUse {
 		}
 	}
 	retRooted := make([]int, nret) // 0 unknown, 1 all parameter-rooted, 2 none, 3 mixed
+	// a parameter that is appended to (x = append(x, ...)) is a list of its own from then on:
+	// returning it returns elements, not a window of the argument
+	appended := map[string]bool{}
+	ast.Inspect(fd.Body, func(n ast.Node) bool {
+		if as, ok := n.(*ast.AssignStmt); ok && len(as.Lhs) == 1 && len(as.Rhs) == 1 {
+			if call, ok := as.Rhs[0].(*ast.CallExpr); ok {
+				if id, ok := call.Fun.(*ast.Ident); ok && id.Name == "append" && id.Obj == nil && len(call.Args) > 0 {
+					if p := paramOf(as.Lhs[0]); p != "" && p == paramOf(call.Args[0]) {
+						appended[p] = true
+					}
+				}
+			}
+		}
+		return true
+	})
 	ast.Inspect(fd.Body, func(n ast.Node) bool {
 		switch v := n.(type) {
 		case *ast.IndexExpr:
@@ -603,7 +667,9 @@ func (c *fnCtx) sliceUsage(fd *ast.FuncDecl) map[string]*sliceUse {
 			if len(v.Results) == nret {
 				for i, r := range v.Results {
 					rooted := false
-					if p := paramOf(r); p != "" && use[p] != nil {
+					if p := paramOf(r); p != "" && use[p] != nil && appended[p] {
+						use[p].elems = true
+					} else if p := paramOf(r); p != "" && use[p] != nil {
 						if _, isSlice := c.paramType(fd, p).(*ast.ArrayType); isSlice || c.isSliceTypeParam(fd, p) {
 							rooted = true
 							use[p].view = true
@@ -653,7 +719,7 @@ func (c *fnCtx) sliceUsage(fd *ast.FuncDecl) map[string]*sliceUse {
 				}
 			}
 			if cal := c.g.calleeOf(c.fn, v); cal != nil {
-				for i, a := range v.Args {
+				for i, a := range callArgs(cal, v) {
 					if p := paramOf(a); p != "" && i < len(cal.params) && cal.params[i].v != nil {
 						cp := cal.params[i]
 						if cp.v.view != nil {
@@ -913,6 +979,8 @@ func (c *fnCtx) rootVar(e ast.Expr) *fnVar {
 	switch v := e.(type) {
 	case *ast.ParenExpr:
 		return c.rootVar(v.X)
+	case *ast.StarExpr:
+		return c.rootVar(v.X)
 	case *ast.Ident:
 		return c.lookup(v)
 	case *ast.IndexExpr:
@@ -960,15 +1028,6 @@ func (c *fnCtx) effects(nodes ...ast.Node) effSet {
 				}
 			case *ast.IncDecStmt:
 				wr(c.rootVar(v.X))
-			case *ast.RangeStmt:
-				if v.Tok == token.ASSIGN {
-					if v.Key != nil {
-						wr(c.rootVar(v.Key))
-					}
-					if v.Value != nil {
-						wr(c.rootVar(v.Value))
-					}
-				}
 			case *ast.ValueSpec:
 				if v.Type != nil && len(v.Values) == 0 && c.zero != nil {
 					for _, z := range zeroNeeds(c.goType(v.Type)) {
@@ -979,6 +1038,23 @@ func (c *fnCtx) effects(nodes ...ast.Node) effSet {
 				if t := c.structTypeOf(v.Type); t != nil {
 					for _, z := range c.litZeroNeeds(v, t) {
 						rd(c.zeros[z])
+					}
+				}
+			case *ast.RangeStmt:
+				if x := c.plainVar(v.X); x != nil && x.typ.k == "map" {
+					rd(c.mapEqbVar(x.typ))
+					if id, ok := v.Value.(*ast.Ident); ok && id.Name != "_" {
+						for _, z := range zeroNeeds(x.typ.elem) {
+							rd(c.zeroVar(z))
+						}
+					}
+				}
+				if v.Tok == token.ASSIGN {
+					if v.Key != nil {
+						wr(c.rootVar(v.Key))
+					}
+					if v.Value != nil {
+						wr(c.rootVar(v.Value))
 					}
 				}
 			case *ast.IndexExpr:
@@ -1020,6 +1096,9 @@ func (c *fnCtx) effects(nodes ...ast.Node) effSet {
 						rd(x)
 					}
 				}
+				if isBuiltin(v, "clear", 1) {
+					wr(c.rootVar(v.Args[0]))
+				}
 				if isBuiltin(v, "cap", 1) {
 					if x := c.plainVar(v.Args[0]); x != nil && x.role == "field" && c.fat[x] != nil {
 						es.r[c.fat[x]] = true
@@ -1035,7 +1114,12 @@ func (c *fnCtx) effects(nodes ...ast.Node) effSet {
 					}
 				}
 				if cal := c.g.calleeOf(c.fn, v); cal != nil {
+					sub := c.calleeSubst(cal, v)
 					for _, e := range cal.extras {
+						if strings.HasPrefix(e.key, "eqb:") {
+							rd(c.mapEqbVar(&fnType{k: "map", key: substT(&fnType{k: "elem", name: strings.TrimPrefix(e.key, "eqb:")}, sub)}))
+							continue
+						}
 						rd(c.extras[e.key])
 					}
 					for _, f := range cal.fields {
@@ -1052,13 +1136,16 @@ func (c *fnCtx) effects(nodes ...ast.Node) effSet {
 					for _, l := range cal.logs {
 						wr(c.logs[l])
 					}
-					for i, p := range cal.params {
-						if p.mutated && i < len(v.Args) {
-							wr(c.rootVar(v.Args[i]))
+					for i, a := range callArgs(cal, v) {
+						if i < len(cal.params) && cal.params[i].mutated {
+							wr(c.rootVar(a))
+							rd(c.rootVar(a))
 						}
 					}
 					for _, z := range cal.zeroTypes {
-						rd(c.zeros[z])
+						if zt := substT(&fnType{k: "elem", name: z}, sub); zt.k == "elem" {
+							rd(c.zeroVar(zt.name))
+						}
 					}
 				} else if l := c.loggedCall(v); l != nil {
 					wr(l)
@@ -1199,6 +1286,9 @@ func (c *fnCtx) expr(e ast.Expr, pre *[]fnBind) (string, *fnType) {
 			if x.noElems {
 				return x.view.name, tyView
 			}
+			if x.ptr {
+				c.lostAt(v, "pointer %s used as a value (only *%s)", v.Name, v.Name)
+			}
 			return x.name, x.typ
 		}
 		if v.Obj != nil && v.Obj.Kind == ast.Con {
@@ -1221,6 +1311,11 @@ func (c *fnCtx) expr(e ast.Expr, pre *[]fnBind) (string, *fnType) {
 			return s, t
 		}
 		c.lostAt(v, "selector %s", src(v))
+	case *ast.StarExpr:
+		if x := c.plainVar(v); x != nil {
+			return x.name, x.typ
+		}
+		c.lostAt(v, "dereference %s", src(v))
 	case *ast.UnaryExpr:
 		x, t := c.expr(v.X, pre)
 		switch v.Op {
@@ -1245,7 +1340,7 @@ func (c *fnCtx) expr(e ast.Expr, pre *[]fnBind) (string, *fnType) {
 		if t.k == "map" {
 			// m[k], one result: the zero value for an absent key
 			k, _ := c.expr(v.Index, pre)
-			return "(go_map_get1 " + c.mapEqb(t, v) + " " + paren(c.zeroOf(t.elem, v)) + " " + paren(x) + " " + paren(k) + ")", t.elem
+			return "(" + c.mapOp(t, "get1") + " " + c.mapEqb(t, v) + " " + paren(c.zeroOf(t.elem, v)) + " " + paren(x) + " " + paren(k) + ")", t.elem
 		}
 		i, it := c.expr(v.Index, pre)
 		if !it.isNum() {
@@ -1292,6 +1387,9 @@ func (c *fnCtx) expr(e ast.Expr, pre *[]fnBind) (string, *fnType) {
 		return vals[0], ts[0]
 	case *ast.CompositeLit:
 		t := c.goType(v.Type)
+		if t.k == "unit" && len(v.Elts) == 0 {
+			return "tt", tyUnit
+		}
 		if t.k == "slice" {
 			var xs []string
 			for _, el := range v.Elts {
@@ -1400,17 +1498,23 @@ func (c *fnCtx) binary(v *ast.BinaryExpr, pre *[]fnBind) (string, *fnType) {
 			}
 			return "(" + x + " || " + y + ")", tyBool
 		}
-		if hasEffect(preY) {
-			c.lostAt(v, "state-changing call on the right of %s", v.Op)
-		}
 		tm := c.tmp()
+		// the state the right operand changes (it is evaluated only when the left one asks for it)
+		// is joined on both branches
+		var st []string
+		if hasEffect(preY) {
+			for _, w := range sortedVars(c.effects(v.Y).w) {
+				st = append(st, w.name)
+			}
+		}
+		res := func(val string) term { return tOk{tuple(append([]string{val}, st...))} }
 		var m term
 		if v.Op == token.LAND {
-			m = tIf{x, wrap(preY, tOk{y}), tOk{"false"}}
+			m = tIf{x, wrap(preY, res(y)), res("false")}
 		} else {
-			m = tIf{x, tOk{"true"}, wrap(preY, tOk{y})}
+			m = tIf{x, res("true"), wrap(preY, res(y))}
 		}
-		*pre = append(*pre, fnBind{pat: tm, m: m})
+		*pre = append(*pre, fnBind{pat: tuple(append([]string{tm}, st...)), m: m, effect: len(st) > 0})
 		return tm, tyBool
 	}
 	x, xt := c.expr(v.X, pre)
@@ -1472,6 +1576,10 @@ func (c *fnCtx) binary(v *ast.BinaryExpr, pre *[]fnBind) (string, *fnType) {
 	case token.EQL, token.NEQ:
 		var s string
 		switch {
+		case xt.k == "map" && xt.nilable && yt.k == "nil":
+			s = "(go_nmap_isnil " + x + ")"
+		case yt.k == "map" && yt.nilable && xt.k == "nil":
+			s = "(go_nmap_isnil " + y + ")"
 		case xt.isNum() && yt.isNum():
 			s = "(" + x + " =? " + y + ")"
 		case xt.k == "bool" && yt.k == "bool":
